@@ -119,6 +119,13 @@ class Endpoint(object):
         return hash(self.target)
 
     def __getattr__(self, name):
+        # Only called for attributes not found the usual way. Never delegate
+        # lookups of our own attributes (missing while an instance is being
+        # reconstructed by copy/pickle) or special methods to the target as
+        # that recurses infinitely when 'target' itself is not yet set.
+        if name in ("link", "target") or (
+                name.startswith("__") and name.endswith("__")):
+            raise AttributeError(name)
         return getattr(self.target, name)
 
 
